@@ -97,9 +97,10 @@ Proof.
     destruct (first_free _ vs1 n1 1) as [[|[|k]]|]; try discriminate; cbn [bind].
     + intros E. inversion E; subst. cbn [sc_vars]. rewrite map_app. cbn [map v_ty].
       unfold vs1. rewrite rename_for_imports_tys. reflexivity.
-    + destruct (search_var vs1 n1); [|discriminate]. cbn [bind].
+    + destruct (first_free _ _ n1 2) as [n|]; [|discriminate]. cbn [bind].
       intros E. inversion E; subst. cbn [sc_vars]. rewrite map_app. cbn [map v_ty].
-      rewrite rename_first_tys. unfold vs1. rewrite rename_for_imports_tys. reflexivity.
+      destruct (has_var vs1 n1); [rewrite rename_first_tys|];
+        unfold vs1; rewrite rename_for_imports_tys; reflexivity.
     + intros E. inversion E; subst. cbn [sc_vars]. rewrite map_app. cbn [map v_ty].
       unfold vs1. rewrite rename_for_imports_tys. reflexivity.
   - cbn [bind]. intros E. inversion E; subst. cbn [sc_vars]. rewrite map_app. cbn [map v_ty].
